@@ -5,8 +5,12 @@
 //
 // Inputs: corpus (corpus/C09/*.json, the witnesses of the repaired defects and of seeded changes), an exhaustive
 // enumeration of binding situations (which of the visible scopes declare the name x how the
-// reference is written x where it stands), seeded random schemas (gen.go), and a stream of odd but
-// builder-accepted type statements.
+// reference is written x where it stands), seeded random schemas (gen.go), a stream of odd but
+// builder-accepted type statements, schemas with a typedef at every kind of scope in every
+// statement, and packagings (pack.go): every corpus set and a share of every generated group
+// loaded again with the same statements distributed over source texts differently (all in one
+// text, module + submodule, importer + imported), compared with the model, the specification and
+// the one-statement-per-text form.
 package main
 
 import (
